@@ -62,16 +62,16 @@ type Spec[C any] struct {
 }
 
 type sub struct {
-	Name        string            `json:"name"`
-	Rule        string            `json:"rule"`
-	Evaluations int64             `json:"evaluations"`
-	NTCount     int64             `json:"nt_count"` // only for exhaustive sweeps (distinct by construction)
-	Exhaustive  bool              `json:"exhaustive"`
-	Requested   int64             `json:"requested"`
-	Classes     map[string]int64  `json:"classes"`
-	Samples     []json.RawMessage `json:"samples"`
-	FPs         string            `json:"fps"` // base64 of little-endian uint64 fingerprints of non-trivial cases
-	Excluded    int64             `json:"excluded"`
+	Name        string                 `json:"name"`
+	Rule        string                 `json:"rule"`
+	Evaluations int64                  `json:"evaluations"`
+	NTCount     int64                  `json:"nt_count"` // only for exhaustive sweeps (distinct by construction)
+	Exhaustive  bool                   `json:"exhaustive"`
+	Requested   int64                  `json:"requested"`
+	Classes     map[string]int64       `json:"classes"`
+	Samples     []json.RawMessage      `json:"samples"`
+	FPs         string                 `json:"fps"` // base64 of little-endian uint64 fingerprints of non-trivial cases
+	Excluded    int64                  `json:"excluded"`
 	Extra       map[string]interface{} `json:"extra,omitempty"`
 
 	fps       map[uint64]struct{}
